@@ -175,6 +175,18 @@ func (o *authOracle) c10(e *Env, si *StepInfo) {
 			}
 		}
 	}
+	// ready: a pending order is handed to providers only by the gateway it names (or that gateway's own addresses)
+	if si.Op.K == "ready" && prev.Order != cur.Order {
+		for _, id := range orderIDs(cur.Order) {
+			po, had := prev.Order.Orders[id]
+			co := cur.Order.Orders[id]
+			if had && po.Status == ordertypes.OrderPending && co.Status != ordertypes.OrderPending {
+				if signer != po.Provider && !inList(nodeTxAddrs(prev, po.Provider), signer) {
+					o.once(e, "C10", "C10.ready", lab, "order-handed-out-by-non-gateway", fmt.Sprint(id), fmt.Sprintf("pending order %d naming gateway %s was handed to providers by %s, who is neither that gateway nor in its registered list", id, fmtAddr(po.Provider), si.Built.Signer.Name))
+				}
+			}
+		}
+	}
 	// node: registration / capacity / reward payout only by the node's own account
 	isNodeOp := strings.HasPrefix(si.Op.K, "node_") || si.Op.K == "add_vstorage" || si.Op.K == "remove_vstorage" || si.Op.K == "claim"
 	if isNodeOp {
